@@ -26,6 +26,7 @@ import (
 	"crypto/sha256"
 	"encoding/hex"
 	"fmt"
+	"os"
 	"sort"
 	"strconv"
 	"strings"
@@ -731,9 +732,19 @@ func (e *episode) create(typ qbft.MsgType, duty core.Duty, peer int, round int64
 		}
 	}
 	m, err := cqbft.CreateMsgVerif(typ, duty, int64(peer), round, vh, pr, pvh, vals, just, e.privs[peer])
+	if err != nil && theRun != nil {
+		// the package's own constructor (used by transport.Broadcast for everything a member sends)
+		// refuses an honest message: the member could never send it. Report and stop this run.
+		theRun.Violate("qbftwire:honest_message_not_constructible", fmt.Sprintf("createMsg refuses an honest %v of member %d for duty %v round %d (prepared round %d, %d justifications): %v", typ, peer, duty, round, pr, len(just), err))
+		theRun.Close()
+		os.Exit(0)
+	}
 	hx.Must(err)
 	return m
 }
+
+// theRun is the run of this process (set in main), for reports from deep inside the generator.
+var theRun *hx.Run
 
 func quorum(n int) int { return (2*n + 2) / 3 }
 
@@ -1035,6 +1046,7 @@ func kindClass(k string) string { return indexRe.Replace(k) }
 func main() {
 	a := hx.ParseArgs()
 	run := hx.NewRun(a.Dir)
+	theRun = run
 	defer run.Close()
 	var ep *episode
 
